@@ -20,7 +20,7 @@ CHECKS = {
             "Trusts the harness's reference model (written from the docstring/README, no repository imports) and float64 torch.linalg; iterative solvers' accuracy is decided in C10, not here.",
             "6/C01"),
     "C03": ("exploration",
-            "Hypothesis rule-based state machine over SOAP optimizers; validity predicates on every stored eigenbasis (orthonormal, diagonalising / orthogonal-iteration update of the previous basis up to signs, refresh schedule) plus the one-step-ahead SOAP reference for corrected eigenvalues and parameter updates",
+            "Hypothesis rule-based state machine over SOAP optimizers; validity predicates on every stored eigenbasis (orthonormal, diagonalising / orthogonal-iteration update of the previous basis up to signs, refresh schedule; with injected torch.linalg.qr failures a failed factor must keep its previous basis bitwise) plus the one-step-ahead SOAP reference for corrected eigenvalues and parameter updates",
             "Every refresh of every generated history is checked for a valid basis in all dtype pairings; all other steps must leave bases bitwise unchanged; each step's accumulator and update must match Adam in the stored rotated coordinates within the stated rounding bound.",
             "Reference model and float64 QR/eigh trusted; the QR comparison is informative only while n*u*prod(cond) stays small (reported per run).",
             "6/C03"),
